@@ -201,6 +201,19 @@ fn gen_world(rng: &mut Rng, seed: u64) -> World {
     World { nodes, up, strategy, prefer_dc, prefer_rack, failover: rng.bool(), pool: (rng.chance(2, 3), rng.usize(1, 2)), tablets, seed }
 }
 
+/// Polls the session's published cluster state until it answers for `token` of a tablet table.
+async fn tablet_known(session: &scylla::client::session::Session, ks: &str, table: &str, token: i64, deadline: std::time::Instant) -> bool {
+    loop {
+        if !session.get_cluster_state().get_token_endpoints(ks, table, scylla::routing::Token::new(token)).is_empty() {
+            return true;
+        }
+        if std::time::Instant::now() > deadline {
+            return false;
+        }
+        tokio::time::sleep(Duration::from_millis(5)).await;
+    }
+}
+
 struct WorldOut {
     build_error: Option<String>,
     /// per op: (query, token, first frame (node, shard), call_seq)
@@ -328,9 +341,18 @@ async fn run_world(w: &World) -> WorldOut {
             out.ops.push((op, q, token, first, res, phase2));
         }
         if !phase2 {
-            // tablet feedback travels through an internal channel to the cluster worker: let it land
-            tokio::time::sleep(Duration::from_millis(150)).await;
-            out.announced = handler.announced.lock().unwrap().iter().map(|(t, _)| *t).collect();
+            // tablet feedback travels through an internal channel to the cluster worker: wait until the
+            // session's published cluster state answers for a token inside each announced tablet
+            let mut ann: Vec<usize> = handler.announced.lock().unwrap().iter().map(|(t, _)| *t).collect();
+            ann.sort();
+            ann.dedup();
+            // (pacing only: a tablet the nodes announced that is still unknown 3 s later is asserted all the same -
+            // a driver that drops a valid announcement does not thereby escape the property)
+            let deadline = std::time::Instant::now() + Duration::from_secs(3);
+            for ti in ann {
+                tablet_known(&session, "tks", "tt", w.tablets[ti].last, deadline).await;
+                out.announced.push(ti);
+            }
         }
     }
     for i in 0..w.nodes.len() {
@@ -450,6 +472,254 @@ fn judge(o: &mut Outcome, w: &World, r: &WorldOut) {
     o.note_add("worlds", 1);
 }
 
+// ---------------------------------------------------------------------------
+// Late joiner: tablets that name a replica the driver does not know yet
+// ---------------------------------------------------------------------------
+//
+// Nodes A (dc0) and B (dc1) are members; L (dc0) listens but is not in system.peers yet.
+// Table tks.tt's tablets list [L, B], table tks.tu's tablet lists [A]. The nodes announce the
+// tablets on misrouted requests (tt and tu in either order), then L becomes a member and the
+// metadata is refreshed. From then on L is a known, reachable replica in the preferred
+// datacenter: the first attempt of every tt request must go to L, on the tablet's shard.
+
+const INSU: &str = "INSERT INTO tks.tu (pk, v) VALUES (?, ?)";
+
+struct HLate {
+    /// (first_excl, last, replicas as (node idx, shard)) per table: 0 = tt, 1 = tu
+    tablets: Mutex<[Vec<Tablet>; 2]>,
+    host_ids: Mutex<Vec<uuid::Uuid>>,
+    frames: Mutex<HashMap<u64, Vec<(usize, Option<u16>, u64)>>>,
+    announced: Mutex<Vec<(usize, usize)>>, // (table, tablet index)
+}
+
+impl Handler for HLate {
+    fn statement(&self, _node: &MockNode, query: &str) -> Option<StatementDef> {
+        let table = if query == INST {
+            "tt"
+        } else if query == INSU {
+            "tu"
+        } else {
+            return None;
+        };
+        let mut d = StatementDef::new(query, &fw::hash_str(query).to_be_bytes());
+        d.bind = vec![ColSpec::new("tks", table, "pk", ColType::BigInt), ColSpec::new("tks", table, "v", ColType::BigInt)];
+        d.pk_indexes = vec![0];
+        Some(d)
+    }
+    fn on_request(&self, rq: Rq) {
+        let Request::Execute { params, .. } = &*rq.request else {
+            rq.void();
+            return;
+        };
+        let q = rq.statement.as_ref().map(|s| s.query.clone()).unwrap_or_default();
+        let Some((op, token)) = params.values.as_ref().and_then(|v| token_of_values(if q == INSU { INST } else { &q }, v)) else {
+            rq.void();
+            return;
+        };
+        self.frames.lock().unwrap().entry(op).or_default().push((rq.node.idx, rq.conn.shard, rq.seq));
+        let ti = if q == INSU { 1 } else { 0 };
+        let tablets = self.tablets.lock().unwrap();
+        if let Some((k, t)) = tablets[ti].iter().enumerate().find(|(_, t)| token > t.first_excl && token <= t.last) {
+            let right = t.replicas.iter().any(|(n, s)| *n == rq.node.idx && (rq.conn.shard.is_none() || rq.conn.shard == Some(*s)));
+            if !right {
+                let ids = self.host_ids.lock().unwrap();
+                let reps: Vec<(uuid::Uuid, i32)> = t.replicas.iter().map(|(n, s)| (ids[*n], *s as i32)).collect();
+                let mut payload = BTreeMap::new();
+                payload.insert("tablets-routing-v1".to_string(), enc::tablet_payload(t.first_excl, t.last, &reps));
+                let env = Envelope { custom_payload: Some(payload), ..Default::default() };
+                self.announced.lock().unwrap().push((ti, k));
+                rq.reply_env(&env, &Response::Result(ResultBody::Void));
+                return;
+            }
+        }
+        rq.void();
+    }
+}
+
+struct LateOut {
+    error: Option<String>,
+    tu_first: bool,
+    failover: bool,
+    shards: [u16; 3],
+    tablets_tt: Vec<Tablet>,
+    /// phase-2 requests: (op, token, first frame)
+    ops: Vec<(u64, i64, Option<(usize, Option<u16>)>)>,
+    announced_tt: Vec<usize>,
+    tu_announced: bool,
+    l_conn_shards: Vec<Option<u16>>,
+    violations: Vec<String>,
+}
+
+async fn run_late_joiner(seed: u64) -> LateOut {
+    let mut rng = Rng::new(seed, 77);
+    let shards = [rng.usize(1, 4) as u16, rng.usize(1, 4) as u16, rng.usize(1, 4) as u16];
+    let sharded = |dc: &str, n: u16, tok: i64| NodeSpec {
+        dc: Some(dc.into()),
+        rack: Some("r1".into()),
+        tokens: vec![tok],
+        sharding: Some(ShardSpec { nr_shards: n, msb_ignore: 12, shard_aware_port: true }),
+        features: Features { tablets: true, ..Default::default() },
+    };
+    let tu_first = rng.bool();
+    let failover = rng.chance(2, 3);
+    let mut out = LateOut { error: None, tu_first, failover, shards, tablets_tt: vec![], ops: vec![], announced_tt: vec![], tu_announced: false, l_conn_shards: vec![], violations: vec![] };
+    let handler = Arc::new(HLate { tablets: Mutex::new([vec![], vec![]]), host_ids: Mutex::new(vec![]), frames: Mutex::new(HashMap::new()), announced: Mutex::new(vec![]) });
+    let mut tks = KeyspaceDef::simple("tks", 1).with_table(TableDef::new("tt", &[("pk", "bigint")], &[("v", "bigint")])).with_table(TableDef::new("tu", &[("pk", "bigint")], &[("v", "bigint")]));
+    tks.initial_tablets = Some(4);
+    let spec = ClusterSpec { nodes: vec![sharded("dc0", shards[0], -3_000_000_000_000_000_000), sharded("dc1", shards[1], 3_000_000_000_000_000_000)], keyspaces: vec![tks], cluster_name: "c12-late".into() };
+    let cluster = MockCluster::start(spec, handler.clone()).await;
+    let late = cluster.add_node(sharded("dc0", shards[2], 0), false).await;
+    *handler.host_ids.lock().unwrap() = cluster.nodes().iter().map(|n| n.host_id).collect();
+    // tt: two tablets, replicas [L, B]; tu: one tablet, replicas [A]
+    let split = rng.u64() as i64 / 2;
+    let tt = vec![
+        Tablet { first_excl: i64::MIN, last: split, replicas: vec![(late.idx, rng.below(shards[2] as u64) as u16), (1, rng.below(shards[1] as u64) as u16)] },
+        Tablet { first_excl: split, last: i64::MAX, replicas: vec![(1, rng.below(shards[1] as u64) as u16), (late.idx, rng.below(shards[2] as u64) as u16)] },
+    ];
+    let tu = vec![Tablet { first_excl: i64::MIN, last: i64::MAX, replicas: vec![(0, rng.below(shards[0] as u64) as u16)] }];
+    out.tablets_tt = tt.clone();
+    *handler.tablets.lock().unwrap() = [tt, tu];
+    let mut pb = DefaultPolicy::builder().token_aware(true).permit_dc_failover(failover);
+    pb = pb.prefer_datacenter("dc0".to_string());
+    let profile = ExecutionProfile::builder().load_balancing_policy(pb.build()).request_timeout(Some(Duration::from_secs(20))).build();
+    let session = match connect(&cluster, |b| b.default_execution_profile_handle(profile.into_handle()).pool_size(PoolSize::PerShard(NonZeroUsize::new(1).unwrap()))).await {
+        Ok(s) => s,
+        Err(e) => {
+            out.error = Some(e);
+            cluster.shutdown();
+            return out;
+        }
+    };
+    let full = |cluster: &MockCluster, idx: usize, n: u16| {
+        let conns: Vec<_> = cluster.established(idx).into_iter().filter(|x| !x.registered.load(Ordering::SeqCst)).collect();
+        (0..n).all(|sh| conns.iter().any(|x| x.shard == Some(sh)))
+    };
+    {
+        let c = cluster.clone();
+        if !cluster.wait_until(Duration::from_secs(15), move || full(&c, 0, shards[0]) && full(&c, 1, shards[1])).await {
+            out.error = Some("pools did not fill".into());
+            cluster.shutdown();
+            return out;
+        }
+    }
+    settle(cluster.log(), Duration::from_millis(120), Duration::from_secs(5), || false).await;
+    let (pt, pu) = match (session.prepare(INST).await, session.prepare(INSU).await) {
+        (Ok(a), Ok(b)) => (a, b),
+        (a, b) => {
+            out.error = Some(format!("prepare: {:?} {:?}", a.err(), b.err()));
+            cluster.shutdown();
+            return out;
+        }
+    };
+    // phase 1: let the nodes announce the tablets (tt: both tablets; tu: its one tablet), tt and tu in either order
+    let announce = |table: usize| {
+        let (session, handler, pt, pu) = (&session, &handler, &pt, &pu);
+        let mut r = Rng::new(seed, 100 + table as u64);
+        async move {
+            for _ in 0..200 {
+                let want = if table == 0 { 2 } else { 1 };
+                let have: std::collections::BTreeSet<usize> = handler.announced.lock().unwrap().iter().filter(|(t, _)| *t == table).map(|(_, k)| *k).collect();
+                if have.len() >= want {
+                    break;
+                }
+                let op = next_op();
+                let _ = session.execute_unpaged(if table == 0 { pt } else { pu }, (r.u64() as i64, op as i64)).await;
+            }
+        }
+    };
+    if tu_first {
+        announce(1).await;
+        announce(0).await;
+    } else {
+        announce(0).await;
+        announce(1).await;
+    }
+    // known = the published cluster state answers for a token of the tablet (with the replicas it knows so far)
+    let deadline = std::time::Instant::now() + Duration::from_secs(5);
+    let ann: std::collections::BTreeSet<(usize, usize)> = handler.announced.lock().unwrap().iter().copied().collect();
+    for (table, k) in ann {
+        // pacing only, as in the main worlds
+        if table == 0 {
+            tablet_known(&session, "tks", "tt", out.tablets_tt[k].last, deadline).await;
+            out.announced_tt.push(k);
+        } else {
+            tablet_known(&session, "tks", "tu", 0, deadline).await;
+            out.tu_announced = true;
+        }
+    }
+    // the late node joins
+    cluster.set_members(vec![0, 1, late.idx]);
+    if let Err(e) = session.refresh_metadata().await {
+        out.error = Some(format!("refresh_metadata: {e}"));
+        cluster.shutdown();
+        return out;
+    }
+    {
+        let c = cluster.clone();
+        let li = late.idx;
+        if !cluster.wait_until(Duration::from_secs(15), move || full(&c, li, shards[2])).await {
+            out.error = Some("the pool of the late node did not fill".into());
+            cluster.shutdown();
+            return out;
+        }
+    }
+    settle(cluster.log(), Duration::from_millis(120), Duration::from_secs(5), || false).await;
+    // one more refresh, as the periodic one would do: whatever was not resolved by the first is given its chance
+    let _ = session.refresh_metadata().await;
+    for _ in 0..30 {
+        let op = next_op();
+        let pk = rng.u64() as i64;
+        let token = murmur3::murmur3_token(&pk.to_be_bytes());
+        let _ = session.execute_unpaged(&pt, (pk, op as i64)).await;
+        let first = handler.frames.lock().unwrap().get(&op).and_then(|v| v.iter().min_by_key(|f| f.2).map(|f| (f.0, f.1)));
+        out.ops.push((op, token, first));
+    }
+    out.l_conn_shards = cluster.established(late.idx).into_iter().filter(|x| !x.registered.load(Ordering::SeqCst)).map(|x| x.shard).collect();
+    out.violations = cluster.log().violations();
+    drop(session);
+    cluster.shutdown();
+    out
+}
+
+fn judge_late(o: &mut Outcome, seed: u64, r: &LateOut) {
+    if let Some(e) = &r.error {
+        o.inconclusive(format!("late-joiner world could not run: {e}"));
+        return;
+    }
+    for v in &r.violations {
+        o.violation("c12:protocol-violation-seen-by-node", v.clone(), json!({"late_joiner_seed": seed}));
+    }
+    let replay = json!({"late_joiner_seed": seed, "tu_announced_first": r.tu_first, "failover": r.failover, "shards": r.shards, "tablets_tt": format!("{:?}", r.tablets_tt)});
+    for (op, token, first) in &r.ops {
+        let Some((node, shard)) = first else { continue };
+        let Some((ti, t)) = r.tablets_tt.iter().enumerate().find(|(_, t)| *token > t.first_excl && *token <= t.last) else { continue };
+        if !r.announced_tt.contains(&ti) || !r.tu_announced {
+            o.class("tablet:not-yet-known(not-asserted)");
+            continue;
+        }
+        o.case(fw::hash64(format!("late:{seed}:{op}").as_bytes()), true);
+        // L (node 2) is a replica of every tt tablet, is in the preferred datacenter dc0 and is up
+        if *node != 2 {
+            o.violation(
+                "c12:tablet:first-attempt-not-at-an-owning-replica",
+                format!("tks.tt token {token}: the tablet's replicas are {:?}; node 2 joined the cluster (refresh answered, pool full) and is the replica in the preferred datacenter, but the first attempt went to node {node}", t.replicas),
+                json!({"replay": replay, "op": op, "token": token}),
+            );
+            continue;
+        }
+        o.class("tablet:late-joining-replica-used");
+        let owner = t.replicas.iter().find(|x| x.0 == 2).map(|x| x.1).unwrap_or(0);
+        if r.l_conn_shards.iter().any(|s| *s == Some(owner)) {
+            if *shard != Some(owner) {
+                o.violation("c12:tablet:wrong-shard", format!("tks.tt token {token}: node 2 owns it on shard {owner}, the request arrived on a connection bound to shard {shard:?}"), json!({"replay": replay, "op": op, "token": token}));
+            } else {
+                o.class("tablet:owning-shard");
+            }
+        }
+    }
+    o.class(if r.tu_first { "late-joiner:other-table-announced-first" } else { "late-joiner:other-table-announced-in-between" });
+}
+
 pub fn run(ctx: &Ctx) -> Outcome {
     let mut out = Outcome::new();
     if let Err(e) = murmur3::self_test() {
@@ -482,6 +752,35 @@ pub fn run(ctx: &Ctx) -> Outcome {
         }
         if fw::stop_early(&mut out) {
             break;
+        }
+    }
+    // late-joiner worlds
+    if out.violations.is_empty() {
+        let n_late = ctx.vol(12, 300);
+        let seeds: Vec<u64> = (0..n_late).map(|i| ctx.seed.wrapping_mul(7919).wrapping_add(i)).collect();
+        for chunk in seeds.chunks(4) {
+            let res: Vec<(u64, LateOut)> = rt.block_on(async {
+                let mut js = Vec::new();
+                for s in chunk.iter().copied() {
+                    js.push(tokio::spawn(async move { (s, run_late_joiner(s).await) }));
+                }
+                let mut v = Vec::new();
+                for j in js {
+                    if let Ok(x) = j.await {
+                        v.push(x);
+                    }
+                }
+                v
+            });
+            for (s, r) in &res {
+                judge_late(&mut out, *s, r);
+            }
+            if fw::stop_early(&mut out) {
+                break;
+            }
+        }
+        for c in ["tablet:late-joining-replica-used", "late-joiner:other-table-announced-first", "late-joiner:other-table-announced-in-between"] {
+            out.require_class(c);
         }
     }
     for c in ["strategy:simple", "strategy:nts", "preference:dc", "preference:none", "some-nodes-down", "vnode:first-attempt-at-replica", "vnode:owning-shard", "tablet:first-attempt-at-replica", "tablet:owning-shard", "first-attempt-in-preferred-dc", "unsharded-node"] {
